@@ -327,6 +327,8 @@ class MultiByteValue(Value):
             raise ValueTypeError("multi-byte declarations must have a comma in them")
         values = value.split(",")
         self.hex_array = [NumericValue(x).hex(size=2) for x in values if x != ""]
+        if any(len(x) != 2 for x in self.hex_array):
+            raise ValueTypeError("[{}] contains a value that does not fit in a byte".format(value))
 
     def hex(self, size=0):
         return "".join(self.hex_array)
